@@ -450,12 +450,45 @@ def _div(a, b):
 # ---------------------------------------------------------------------------
 # symbolic integer
 
+class ModVal:
+    """|x| % c for a symbolic x whose residue class is known but whose sign is not: only the
+    comparison with 0 is meaningful (|x| % c == 0  <=>  x % c == 0)"""
+
+    def __init__(self, nonzero):
+        self.nonzero = nonzero
+
+    def __eq__(self, o):
+        if isinstance(o, int) and o == 0:
+            return not self.nonzero
+        raise OutsideSubset('|x| % c compared with a non-zero value')
+
+    def __ne__(self, o):
+        if isinstance(o, int) and o == 0:
+            return self.nonzero
+        raise OutsideSubset('|x| % c compared with a non-zero value')
+
+    __hash__ = None
+
+
+def _lin_add(a, b, sign=1):
+    if a is None or b is None:
+        return None
+    d = dict(a[0])
+    for k_, v in b[0].items():
+        d[k_] = d.get(k_, 0) + sign * v
+        if d[k_] == 0:
+            del d[k_]
+    return (d, a[1] + sign * b[1])
+
+
 class I:
-    __slots__ = ('z',)
+    __slots__ = ('z', 'lin', 'absof')
     __array_priority__ = 1000
 
-    def __init__(self, z):
+    def __init__(self, z, lin=None, absof=None):
         self.z = z
+        self.lin = lin            # ({z3 var name: int coef}, int const) when the value is a linear form
+        self.absof = absof        # x when the value is |x|
 
     def __repr__(self):
         return 'I(%s)' % (self.z,)
@@ -476,39 +509,58 @@ class I:
             pass
         return None
 
-    def _bin(self, o, f, rf):
+    @staticmethod
+    def _lin(o):
+        if isinstance(o, I):
+            return o.lin
+        if isinstance(o, bool):
+            return ({}, int(o))
+        try:
+            return ({}, int(o)) if int(o) == o else None
+        except (TypeError, ValueError):
+            return None
+
+    def _bin(self, o, f, rf, lin=None):
         z = I._c(o)
         if z is not None:
-            return I(f(self.z, z))
+            return I(f(self.z, z), lin)
         return rf(lift(self), o)
 
     def __add__(self, o):
-        return self._bin(o, lambda a, b: a + b, lambda a, b: a + b)
+        return self._bin(o, lambda a, b: a + b, lambda a, b: a + b, _lin_add(self.lin, I._lin(o)))
 
     __radd__ = __add__
 
     def __sub__(self, o):
-        return self._bin(o, lambda a, b: a - b, lambda a, b: a - b)
+        return self._bin(o, lambda a, b: a - b, lambda a, b: a - b, _lin_add(self.lin, I._lin(o), -1))
 
     def __rsub__(self, o):
         z = I._c(o)
         if z is not None:
-            return I(z - self.z)
+            return I(z - self.z, _lin_add(I._lin(o), self.lin, -1))
         return lift(o) - lift(self)
 
     def __mul__(self, o):
-        return self._bin(o, lambda a, b: a * b, lambda a, b: a * b)
+        lo = I._lin(o)
+        lin = None
+        if self.lin is not None and lo is not None:
+            if not lo[0]:
+                lin = ({k_: v * lo[1] for k_, v in self.lin[0].items() if v * lo[1] != 0}, self.lin[1] * lo[1])
+            elif not self.lin[0]:
+                lin = ({k_: v * self.lin[1] for k_, v in lo[0].items() if v * self.lin[1] != 0}, lo[1] * self.lin[1])
+        return self._bin(o, lambda a, b: a * b, lambda a, b: a * b, lin)
 
     __rmul__ = __mul__
 
     def __neg__(self):
-        return I(-self.z)
+        lin = None if self.lin is None else ({k_: -v for k_, v in self.lin[0].items()}, -self.lin[1])
+        return I(-self.z, lin)
 
     def __pos__(self):
         return self
 
     def __abs__(self):
-        return I(z3.If(self.z >= 0, self.z, -self.z))
+        return I(z3.If(self.z >= 0, self.z, -self.z), None, absof=self)
 
     def __mod__(self, o):
         z = I._c(o)
@@ -519,6 +571,13 @@ class I:
                 raise ZeroDivisionError('integer modulo by zero')
             if o < 0:
                 raise OutsideSubset('mod by negative constant')
+            # residue classes: with every variable coefficient a multiple of o the value is concrete
+            src_ = self.absof if self.absof is not None else self
+            if src_.lin is not None and all(v % o == 0 for v in src_.lin[0].values()):
+                r = src_.lin[1] % o
+                if self.absof is None:
+                    return r
+                return ModVal(r != 0)
         else:
             ctx().oblige('mod_nonzero', B(z != 0))
         return I(self.z % z)          # z3 mod == Python % for positive divisor
@@ -830,7 +889,7 @@ def real(name, numdef=None):
 def integer(name):
     c = ctx()
     c.order.append(name)
-    return I(z3.Int(name))
+    return I(z3.Int(name), ({name: 1}, 0))
 
 
 def angle(name, base=(Fraction(1), 0), numdef=None):
